@@ -8,6 +8,11 @@ def R(pkg, run, quick, thorough, **kw):
 LAB = "./internal/zzverif/lab"
 
 CHECKS = {
+    "C07": {
+        "runs": [
+            R(LAB, "^TestC07MITM", {"checks": 200, "timeout": 900}, {"checks": 1200, "shards": 12, "timeout": 3000}, race=True),
+        ],
+    },
     "C14": {
         "runs": [
             R("./pac", "^TestC14Tree", {"checks": 700, "timeout": 600}, {"checks": 4000, "shards": 16, "timeout": 2400}, race=True),
@@ -89,6 +94,9 @@ CHECKS = {
 LEVELS = {"C12": "fault_enumeration"}  # default: exploration
 
 RULES = {
+    "C07": "rapid draws a MITM configuration {certificate cache capacity 1/2/8/1024, leaf validity 1 h or 1 s (cache TTL 1 s or 1 h), mitm-domains none or include/exclude list, insecure on/off} and a batch of 1-32 concurrent CONNECTs over 1-40 distinct DNS names plus mixed-case, IDN, IPv4 and bracketed IPv6 authorities; per connection: SNI same / absent / a different name, origin certificate valid / expired / wrong name / unknown issuer, optional request inside the session (optionally with X-Forwarded-Proto); the batch may be repeated (after the 1 s validity has passed). "
+           "Oracle: the client verifies the presented chain itself (x509 against the configured CA, for the SNI name or else the CONNECT host, IP literals as IP SANs, valid at the handshake instant); a request inside the session must reach the TLS origin (whose connection log starts with a TLS record) when the origin verifies or insecure mode is on, otherwise the origin must receive no request and the client a 502 with X-Forwarder-Error; hosts excluded by mitm-domains must present the origin's own certificate. "
+           "Non-trivial = more distinct hosts than cache capacity, SNI differing from the CONNECT host, an IP literal, or a bad origin certificate with an inner request. Distinct = distinct (configuration, batch).",
     "C14": "(Tree) rapid draws a decision-tree PAC script from an AST: conditions are calls of isPlainHostName, dnsDomainIs, localHostOrDomainIs, dnsDomainLevels, shExpMatch (on host and url; globs of literals . * ?), isInNet (dotted masks incl. patterns with bits outside the mask), isResolvable(Ex), dnsResolve(Ex), myIpAddress(Ex), isInNetEx (CIDRs), sortIpAddressList, combined with ! && ||; leaves are result strings; entry point FindProxyForURL or FindProxyForURLEx; "
            "DNS answers (none / A / A+A+AAAA / AAAA per name) and interface addresses are injected through the package's testing fields; 2-8 query URLs over 17 hosts (names incl. look-alikes such as example.com.evil.org, IPv4 and bracketed IPv6 literals); the same AST is evaluated by a Go reference implementation of the helper specifications; queries whose arguments fall outside the agreement domain are skipped and counted; then 1-32 goroutines issue the batch through ProxyResolverPool and must get the sequential answers. "
            "(Entry) every combination of defined entry points x 13 return expressions (strings, numbers, null, undefined, objects, arrays, String objects, non-ASCII). (List) result lists of 1-4 entries from 10 keywords x hosts (DNS, IPv4, IPv6) x ports with padding and 7 malformation kinds, compared with an independent parser (mode, host, port, URL scheme; First = All[0]; malformed => error). "
@@ -143,6 +151,9 @@ RULES = {
 }
 
 ASSUMPTIONS = {
+    "C07": ["expiry is exercised with a 1 s validity (the default 24 h / 6 h path is the same code, not waited for)",
+            "DNS names are mapped to the scripted TLS origins by connect-to rules keyed on the port",
+            "HTTP/2 inside MITM is not reachable through forwarder's configuration"],
     "C14": ["agreement domain: isPlainHostName / isInNet / dnsResolve / isResolvable are not given IPv6 literals; localHostOrDomainIs is not given a host that has a domain part unless it matches exactly; weekdayRange/dateRange/timeRange are clock-dependent and outside the domain",
             "DNS and interface addresses are injected via ProxyResolverConfig.testingLookupIP / testingMyIPAddress(Ex) (white-box test file in package pac)",
             "unknown keywords with a valid host:port parse as DIRECT (as C05 states); lower-case keywords and double spaces are not generated"],
@@ -191,6 +202,11 @@ ASSUMPTIONS = {
 # MANIFEST texts
 
 META = {
+    "C07": {
+        "technique": "property-based testing (rapid): generated concurrent CONNECT batches against MITM proxies with tiny caches and short validities; oracle = independent x509 verification at the client plus request/no-request observation at scripted TLS origins with good and bad certificates",
+        "text": "Every presented chain is verified by the harness for the name the client asked for; cache eviction, expiry with a long TTL (re-validation), SNI precedence, IP SANs, the mitm-domains filter and origin verification are all on the path (7 mutants verified). 200 batches quick, 14400 under -race thorough.",
+        "note": "One RSA key per proxy configuration (cached per process); short-validity cases sleep 1.15 s.",
+    },
     "C14": {
         "technique": "property-based testing (rapid): AST-generated PAC programs evaluated differentially (goja + forwarder helpers vs. a Go reference evaluator of the helper specifications), concurrent pool vs. sequential answers, independent result-list parser",
         "text": "Generated decision trees over all predefined helpers with injected DNS; any helper whose semantics deviates on the agreement domain changes a reachable leaf and is caught (verified with 9 helper mutants); pool answers are compared with sequential ones under up to 32 goroutines (and -race in thorough). 700 scripts x up to 8 queries + 6000 entry/list cases quick; 64000 scripts thorough.",
